@@ -191,6 +191,31 @@ class _Counters:
         return env
 
 
+def raw_list_form(b, raw_name: str) -> Optional[Tuple[str, str, ast.Assign]]:
+    """(X, Y, statement) when the group's raw rows are collected in two lists and stacked afterwards - `raw = np.array(X + Y)`,
+    `np.vstack((X, Y))`, `np.concatenate((X, Y))`, `np.array([*X, *Y])`: row k is the k-th element of X, row len(X) + k the k-th of Y."""
+    for st in b.group_loop.body:
+        if not (isinstance(st, ast.Assign) and len(st.targets) == 1 and isinstance(st.targets[0], ast.Name) and st.targets[0].id == raw_name):
+            continue
+        v = st.value
+        if isinstance(v, ast.Call) and call_name(v) in ("array", "asarray", "vstack", "concatenate", "stack", "row_stack") and v.args:
+            dt = kwarg(v, "dtype")
+            if dt is not None and unparse(dt) not in ("float", "np.float64", "np.double"):
+                return None
+            a0 = v.args[0]
+            parts = None
+            if isinstance(a0, ast.BinOp) and isinstance(a0.op, ast.Add) and isinstance(a0.left, ast.Name) and isinstance(a0.right, ast.Name) and call_name(v) in ("array", "asarray"):
+                parts = (a0.left.id, a0.right.id)
+            elif isinstance(a0, (ast.Tuple, ast.List)) and len(a0.elts) == 2:
+                if all(isinstance(e, ast.Name) for e in a0.elts) and call_name(v) in ("vstack", "concatenate", "row_stack"):
+                    parts = (a0.elts[0].id, a0.elts[1].id)
+                elif all(isinstance(e, ast.Starred) and isinstance(e.value, ast.Name) for e in a0.elts) and call_name(v) in ("array", "asarray", "vstack", "stack"):
+                    parts = (a0.elts[0].value.id, a0.elts[1].value.id)
+            if parts and parts[0] != parts[1]:
+                return parts[0], parts[1], st
+    return None
+
+
 def _smoothing(b) -> Tuple[Optional[ast.Assign], Optional[ast.Call]]:
     """The group-level statement `S = <smoothing operator>(frq, RAW, fcs, bandwidth)`."""
     for st in b.group_loop.body:
@@ -246,6 +271,15 @@ def _body(ck: Checker, prog: Program, q: str):
             raise AnalysisError(f"{q}: group-level smoothing call `S = operator(frq, raw, fcs, bandwidth)` not found")
     # ------------------------------------------------------------------ R1 events per processed record
     stores: Dict[str, List[ast.Assign]] = {"raw": [], "order": [], "out": []}
+    synthetic_idx: Dict[int, sp.Expr] = {}
+    lists = raw_list_form(b, raw_name) if raw_name else None
+    if lists is not None:
+        for n in ast.walk(b.record_loop):
+            if isinstance(n, ast.Expr) and isinstance(n.value, ast.Call) and call_name(n.value) == "append" and isinstance(n.value.func, ast.Attribute) \
+                    and isinstance(n.value.func.value, ast.Name) and n.value.func.value.id in lists[:2] and len(n.value.args) == 1:
+                stores["raw"].append(n)
+                # the k-th processed record of the group appends the k-th element; the second list follows the `count` rows of the first
+                synthetic_idx[id(n)] = sp.expand(k_) if n.value.func.value.id == lists[0] else sp.expand(CNT_ + k_)
     for n in ast.walk(b.record_loop):
         if isinstance(n, ast.Assign) and len(n.targets) == 1 and isinstance(n.targets[0], ast.Subscript) and isinstance(n.targets[0].value, ast.Name):
             base = n.targets[0].value.id
@@ -283,7 +317,7 @@ def _body(ck: Checker, prog: Program, q: str):
     # ------------------------------------------------------------------ R1 where the rows go
     placement = None          # "block" | "scatter" | "direct"
     if not rotd:
-        got = sorted((str(idx_value(st.targets[0].slice, st)) for st in stores["raw"]))
+        got = sorted((str(synthetic_idx[id(st)] if id(st) in synthetic_idx else idx_value(st.targets[0].slice, st)) for st in stores["raw"]))
         if len(stores["raw"]) == 2 and got == sorted([str(sp.expand(k_)), str(sp.expand(CNT_ + k_))]):
             ck.ok(P + "R1", q, f"{raw_name}[k] and {raw_name}[count + k] hold the rows of the group's k-th record",
                   detail="; ".join(norm_key(st, 60) for st in stores["raw"]))
@@ -294,8 +328,16 @@ def _body(ck: Checker, prog: Program, q: str):
         alloc = [st for st in b.group_loop.body if isinstance(st, ast.Assign) and len(st.targets) == 1 and isinstance(st.targets[0], ast.Name)
                  and st.targets[0].id == raw_name]
         T = Translator(env={b.count_var: CNT_} if b.count_var else {})
-        ok_alloc = len(alloc) == 1 and isinstance(alloc[0].value, ast.Call) and alloc[0].value.args and isinstance(alloc[0].value.args[0], ast.Tuple) \
-            and equal(T.tr(alloc[0].value.args[0].elts[0]), 2 * CNT_) and C._before(alloc[0], b.record_loop)
+        if lists is not None:
+            # list form: both lists start empty for every group, before the group's records are visited
+            inits = [st for st in b.group_loop.body if isinstance(st, ast.Assign) and len(st.targets) == 1 and isinstance(st.targets[0], ast.Name)
+                     and st.targets[0].id in lists[:2] and isinstance(st.value, ast.List) and not st.value.elts and C._before(st, b.record_loop)]
+            others = [x for x in own_nodes(f.node) if isinstance(x, ast.Name) and x.id in lists[:2] and isinstance(x.ctx, ast.Store)]
+            ok_alloc = len(inits) == 2 and len(others) == 2 and C._before(b.record_loop, lists[2])
+            alloc = [lists[2]]
+        else:
+            ok_alloc = len(alloc) == 1 and isinstance(alloc[0].value, ast.Call) and alloc[0].value.args and isinstance(alloc[0].value.args[0], ast.Tuple) \
+                and equal(T.tr(alloc[0].value.args[0].elts[0]), 2 * CNT_) and C._before(alloc[0], b.record_loop)
         if ok_alloc:
             ck.ok(P + "R1", q, norm_key(alloc[0]), detail="2*count rows per group, allocated per group")
         else:
